@@ -3,6 +3,7 @@
 // code computes the same dataset items.  The back-end's C++ runs on the host, the emitted A64 code runs in the
 // instruction-subset emulator src/emu/a64 (translation validation by exhaustive enumeration of program alphabets).
 // Build: src/emu/a64/build.sh <profile> <outdir>.
+#include <deque>
 #include "emu/a64/c19_families.hpp"
 #include "c19_build_info.hpp"
 #include <libgen.h>
@@ -133,8 +134,19 @@ static bool neutralize(CaseSpec& c, const std::vector<Pred>& preds) {
 }
 // Every disagreement is either attributed to an already reported single-word key (the program agrees once those words are
 // replaced by the filler) or minimised to a new key.  Nothing is left unexplained unless the budget is exhausted (-> incomplete).
-static void report(Engine& eng, vf::Result& r, CaseSpec c, const Outcome& first, std::set<std::string>& keys, int& minimized, std::vector<Pred>& preds) {
+static void report(Engine& eng, vf::Result& r, CaseSpec c, const Outcome& first, std::set<std::string>& keys, int& minimized, std::vector<Pred>& preds, std::deque<CaseSpec>& hist) {
 	r.n["mismatches"]++;
+	// A compiler object translates many programs (8 per hash, every hash of a VM): does this disagreement need what EARLIER programs left in it? Run the case on a fresh
+	// compiler: if that agrees, the case is reported together with the programs that preceded it on this compiler, and the replay runs them in order (seeded change agent7_C19).
+	{ Engine fresh(eng.env); Outcome of = fresh.run(c); r.n["disagreements_checked"]++;
+	  if (of.agree) {
+		if (keys.insert("history").second) {
+			vf::Violation v; v.key = "history"; v.what = "A64 JIT != interpreter ONLY after the programs compiled before on the same compiler object (a fresh compiler agrees) [" + std::string(c.family) + ", " + dims(c) + "]: " + first.what;
+			v.replay = case_json(c); v.replay.set("first_difference", first.what); Json h = Json::arr(); for (auto& q : hist) h.push(case_json(q)); v.replay.set("history", h);
+			r.viol.push_back(v);
+		}
+		eng.reset_jit(); hist.clear(); return;
+	  } }
 	if (!preds.empty()) {
 		CaseSpec t = c;
 		if (neutralize(t, preds)) { Outcome o = eng.run(t); r.n["disagreements_checked"]++; if (o.agree) { r.n["mismatches_attributed_to_reported_keys"]++; return; } c = t; }
@@ -164,15 +176,19 @@ static void report(Engine& eng, vf::Result& r, CaseSpec c, const Outcome& first,
 
 static vf::Result shard_main(const vf::Args& a, Env& env, const Plan& pl, int shard) {
 	vf::Result r; Engine eng(env);
-	std::set<std::string> keys; int minimized = 0; std::vector<Pred> preds;
+	std::set<std::string> keys; int minimized = 0; std::vector<Pred> preds; std::deque<CaseSpec> hist;   // hist: the last programs translated by eng's compiler object, oldest first
+	std::deque<std::string> histjs; std::string curjs;
 	auto one = [&](CaseSpec& c, const char* fam, bool sampled) {
 		c.family = fam;
+		// what the parent reports if this process dies inside the library's compiler (a crash of the translator is a verdict): the case and the programs translated before it
+		{ std::string js = case_json(c).dump(); std::string cur = js.substr(0, js.size() - 1) + ",\"finding_key\":\"a64:crash\",\"history\":["; bool f1 = true; for (auto& h : histjs) { if (!f1) cur += ","; cur += h; f1 = false; } cur += "]}"; vf::set_current(cur); curjs.swap(js); }
 		Outcome o = eng.run(c);
 		r.n[sampled ? "programs_sampled" : "programs"]++; r.n[std::string("cases_") + fam]++;
 		if (c.mode) r.n["cases_light"]++; if (c.version == 2) r.n["cases_v2"]++; if (c.aes) r.n["cases_hard_aes"]++;
 		r.mx["guest_insns_per_case"] = std::max(r.mx["guest_insns_per_case"], o.guest_insns);
-		if (!o.agree) report(eng, r, c, o, keys, minimized, preds);
-		else if (r.samples.size() < 1 && shard == 0) { Json s = case_json(c); s.set("program", vf::hex(c.prog, 160) + "..."); s.set("guest_instructions", (unsigned long long)o.guest_insns).set("result", "agree"); r.sample(s); }
+		if (!o.agree) { report(eng, r, c, o, keys, minimized, preds, hist); eng.reset_jit(); hist.clear(); histjs.clear(); }   // the reporter ran other programs on this compiler: start again from a new one so that `hist` stays the complete history
+		else { hist.push_back(c); histjs.push_back(curjs); if (hist.size() > 8) { hist.pop_front(); histjs.pop_front(); } }
+		if (o.agree && r.samples.size() < 1 && shard == 0) { Json s = case_json(c); s.set("program", vf::hex(c.prog, 160) + "..."); s.set("guest_instructions", (unsigned long long)o.guest_insns).set("result", "agree"); r.sample(s); }
 	};
 	auto stop = [&]() { if (r.incomplete) return true; if (a.expired()) { r.incomplete = true; return true; } return false; };
 	CaseSpec c;
@@ -191,6 +207,15 @@ static vf::Result shard_main(const vf::Args& a, Env& env, const Plan& pl, int sh
 			if (stop()) break;
 		}
 		r.mx["family_c_programs"] = fc.size() * 2;
+		// ---- (c2) dataset offsets (in items) at the immediate-width boundaries a translator can split at: 8 bits, 12 bits (add #imm12), 16 bits (movz/movk), 20 bits
+		static const uint64_t DSO[] = { 1, 0x7F, 0x80, 0xFF, 0x100, 0x7FF, 0x800, 0x801, 0xFFF, 0x1000, 0x1001, 0x17FF, 0x1800, 0x1801, 0x7FFF, 0x8000, 0xFFFF, 0x10000, 0x10001, 0x3F800, 0x7F7FF, 0x7F800, 0x7FFFE };
+		for (uint64_t dso : DSO) for (int v = 1; v <= 2; ++v) for (unsigned k = 0; k < 4 && !stop(); ++k) {
+			if (!mine()) continue;
+			c.version = v; set_combo(c, k | (3u << 2) | ((unsigned)(dso & 3) << 5), pl.light);
+			if (!build_c(env, c, fc[(size_t)(dso % 3)])) continue;
+			memcpy(c.prog + 13 * 8, &dso, 8);
+			one(c, "c_dataset_offset", false);
+		}
 	}
 	// ---- (d) programs from the real generator (sampling floor)
 	{
@@ -290,8 +315,9 @@ static int do_replay(const vf::Args& a) {
 	}
 	CaseSpec c;
 	if (!case_from_json(j, c)) { fprintf(stderr, "c19: bad replay file\n"); return 2; }
-	make_env(env, c.mode == 1);
+	make_env(env, c.mode == 1 || j.has("history"));
 	Engine eng(env);
+	if (j.has("history")) { for (auto& hj : j.at("history").a) { CaseSpec h; if (case_from_json(hj, h)) eng.run(h); } printf("replay: %zu earlier programs translated by the same compiler object first\n", j.at("history").a.size()); }
 	Outcome o = eng.run(c);
 	printf("replay [%s] %s: %s\n", c.family, dims(c).c_str(), o.agree ? "interpreter and emulated A64 JIT agree" : o.what.c_str());
 	std::vector<int> live = live_slots(c);
@@ -402,7 +428,7 @@ int main(int argc, char** argv) {
 	if (a64_selftest(false, &st_checks, &st_forms)) { fprintf(stderr, "c19: emulator self-test failed: framework error\n"); return 2; }
 	Plan pl; pl.thorough = a.thorough(); pl.seed = a.seed; pl.light = !a.opt.count("no-light");
 	Env env; make_env(env, pl.light);
-	vf::Result r = vf::run_shards(a, NSHARDS, [&](int s) { return shard_main(a, env, pl, s); });
+	vf::Result r = vf::run_shards(a, NSHARDS, [&](int s) { return shard_main(a, env, pl, s); }, true, 7200);
 	{ std::set<std::string> seen; std::vector<vf::Violation> u; for (auto& v : r.viol) if (seen.insert(v.key).second) u.push_back(v); r.viol = u; }
 	const std::string child_out = a.get("child-result");
 	if (!child_out.empty()) { std::ofstream f(child_out); f << r.to_json().dump() << "\n"; return 0; }
